@@ -72,6 +72,7 @@ func (fr *Frame) call(st *State, c *ast.CallExpr) []Val {
 			return fr.builtin(st, c, b.Name())
 		}
 	}
+	fr.atCall(st, c)
 	// call of a function-typed local / field / literal
 	fn := fr.calleeFunc(c)
 	if fn == nil {
@@ -520,6 +521,7 @@ func (fr *Frame) builtin(st *State, c *ast.CallExpr, name string) []Val {
 			ed := x.u.fresh("emptydom", "(Array "+ks+" Bool)")
 			q := "k$q" + fmt.Sprint(x.nextQ())
 			x.u.fact(fmt.Sprintf("(forall ((%s %s)) (! (not (select %s %s)) :pattern ((select %s %s))))", q, ks, ed, q, ed, q))
+		x.u.fact(fmt.Sprintf("(= (%s %s) 0)", x.mapcardFn(ks), ed))
 			x.heapStore(st, dom, r, ed)
 			return []Val{{T: r, S: "Int", Ty: t}}
 		case *types.Chan:
@@ -583,6 +585,12 @@ func (fr *Frame) appendSlice(st *State, s, o Val, rt types.Type) Val {
 	if o.S == "GoString" {
 		x.need("str2bytes")
 		o = Val{T: "(str2bytes " + o.T + ")", S: ss}
+	}
+	if es == "Int" {
+		// byte / reference slices: the prelude function, so that equal operands give equal terms
+		x.need("catbytes")
+		r := x.bind(Val{T: "(catbytes " + s.T + " " + o.T + ")", S: ss, Ty: rt}, "app")
+		return r
 	}
 	arr := x.u.fresh("cat", "(Array Int "+es+")")
 	q := "j$q" + fmt.Sprint(x.nextQ())
